@@ -110,7 +110,13 @@ func runOnce(sc Scenario, ch *explore.Chooser, trace bool) (out Outcome, ex *ver
 		return ex
 	})
 	if ex == nil {
-		runlib.EngineErrorf("scenario %v did not run the scheduler", sc.Desc())
+		// A scenario may fail in its sequential preparation (computing the
+		// expected outcome panicked); without a violation it is a harness bug.
+		if len(out.Viols) == 0 {
+			runlib.EngineErrorf("scenario %v did not run the scheduler", sc.Desc())
+		}
+
+		ex = &verifsched.Exec{}
 	}
 
 	out.Viols = append(std(ex), out.Viols...)
